@@ -184,3 +184,12 @@ func (b *recBatch) RemoveNodes(nodes []*node.Pointer) error {
 	b.r.mu.Unlock()
 	return b.Batch.RemoveNodes(nodes)
 }
+
+// RootExisted forwards the wrapped batch's optional report that Commit found the root already
+// stored (the tree looks for this method on the batch it was given).
+func (b *recBatch) RootExisted() bool {
+	if re, ok := b.Batch.(interface{ RootExisted() bool }); ok {
+		return re.RootExisted()
+	}
+	return false
+}
